@@ -35,11 +35,11 @@ func evmConfigs(quick bool) []evmCfg {
 	// a pool that is one short of both limits: account F holds 9 gapped txs
 	// (waiting), account G 9 consecutive txs sent in descending order (pending).
 	b := evmCfg{Name: "B", BlockSize: 1, NAcct: 4, Nonces: 3, Payloads: low}
+	for n := 8; n >= 0; n-- { // first: the waiting queue is shared, G must pass through it while it is empty
+		b.Prefill = append(b.Prefill, fmt.Sprintf("R:G:%d:a", n))
+	}
 	for n := 1; n <= 9; n++ {
 		b.Prefill = append(b.Prefill, fmt.Sprintf("R:F:%d:a", n))
-	}
-	for n := 8; n >= 0; n-- {
-		b.Prefill = append(b.Prefill, fmt.Sprintf("R:G:%d:a", n))
 	}
 	allC := []string{"C:E", "C:X", "C:A1", "C:A2", "C:B1", "C:A1B1", "C:ALL"}
 	a.Commits, b.Commits = allC, allC
